@@ -44,6 +44,8 @@ func init() {
 		mutant{"at-limit write parks before the reactor is armed (multicast)", "multicast/peer.go",
 			"\tp.write.b = b\n\tp.write.addr = addr\n\tp.write.fn = fn\n\n\tif p.ioc.Dispatched < sonic.MaxCallbackDispatch {\n\t\tp.asyncWriteNow(b, addr, func(err error, n int) {\n\t\t\tp.ioc.Dispatched++\n\t\t\tfn(err, n)\n\t\t\tp.ioc.Dispatched--\n\t\t})\n\t} else {\n\t\tp.scheduleWrite(fn)\n\t}",
 			"\tif p.ioc.Dispatched >= sonic.MaxCallbackDispatch {\n\t\tp.scheduleWrite(fn)\n\t\treturn\n\t}\n\n\tp.write.b = b\n\tp.write.addr = addr\n\tp.write.fn = fn\n\n\tp.asyncWriteNow(b, addr, func(err error, n int) {\n\t\tp.ioc.Dispatched++\n\t\tfn(err, n)\n\t\tp.ioc.Dispatched--\n\t})", "C01-R2b"},
+		mutant{"cancel clears the handler after invoking it", "file.go",
+			"\t\tf.slot.Handlers[internal.ReadEvent](err)\n\t}\n}\n\nfunc (f *file) cancelWrites() {", "\t\tf.slot.Handlers[internal.ReadEvent](err)\n\t\tf.slot.Handlers[internal.ReadEvent] = nil\n\t}\n}\n\nfunc (f *file) cancelWrites() {", "C01-R2"},
 		mutant{"interest not removed before dispatch (write)", "internal/poll_linux.go",
 			"\t\t\t_ = p.DelWrite(slot)\n\t\t\tslot.Handlers[WriteEvent](nil)", "\t\t\tslot.Handlers[WriteEvent](nil)", "C01-R3"},
 		mutant{"stale batch entries dispatched (read)", "internal/poll_linux.go",
@@ -421,6 +423,28 @@ func runC01(c *Ctx) {
 			if anyReg {
 				c.check(matched, fn, "Slot.Set "+dir+" direction", call.Pos(), "handler direction matches the registration that follows", "a handler is installed for the "+dir+" direction but the registration that follows is for the other direction: the event would invoke a stale or nil handler")
 			}
+		}
+	}
+
+	// the handler table of a slot is written by Slot.Set only: a handler cleared or replaced anywhere else (for example
+	// after a cancellation callback that re-issued the operation and installed a new one) loses a parked operation
+	{
+		slotSetFn := p.Method("internal", "Slot", "Set")
+		for _, fn := range p.Funcs {
+			eachInstr(fn, func(in ssa.Instruction) {
+				st, ok := in.(*ssa.Store)
+				if !ok {
+					return
+				}
+				ia, ok := st.Addr.(*ssa.IndexAddr)
+				if !ok {
+					return
+				}
+				if fv, _ := fieldAddrOf(ia.X); fv != handlersF {
+					return
+				}
+				c.check(fn == slotSetFn, fn, "handler table write", st.Pos(), "Slot.Set is the only writer of Slot.Handlers", "Slot.Handlers is written outside Slot.Set: a handler installed for a parked (possibly just re-issued) operation is overwritten or cleared, and the operation never completes - or a nil handler is dispatched")
+			})
 		}
 	}
 
